@@ -15,11 +15,12 @@ package lib
 
 import (
 	"context"
+	"encoding/json"
 	"errors"
 	"fmt"
-	"io"
 	golog "log"
 	"net"
+	"os"
 	"strings"
 	"sync"
 	"sync/atomic"
@@ -91,8 +92,8 @@ func (c11Geo) ASN(ip net.IP) (uint, error) {
 
 type c11LibEnv struct {
 	*vEnv
-	peer *c11Peer
-	slog *c11ShareLog
+	peer     *c11Peer
+	slog     *c11ShareLog
 	dtls     *c11DTLS
 	cs       *c11ConnStats
 	emptyGeo geoip.Database
@@ -202,6 +203,13 @@ func c11ZmqRun(e *c11LibEnv, c c11ZmqCase) (classes []string, nontrivial bool, o
 	wantConnect := int64(0)
 	mode := c11ShareMode(c.Cfg)
 	wantShare, handled0, failed0 := int64(0), e.peer.handled.Load(), e.slog.failed.Load()
+	if w := (&pb.C2SWrapper{}); mode != 0 && proto.Unmarshal(c.Msg, w) == nil && w.GetRegistrationSource() == pb.RegistrationSource_Detector {
+		// a panic in the sharing goroutine cannot be recovered and kills the process: leave the case in
+		// the log so that the crash report (the log) says which input it was
+		if b, err := json.Marshal(c); err == nil {
+			fmt.Fprintf(os.Stderr, "C11-ZMQ-SHARE-CASE %s\n", b)
+		}
+	}
 	o = c11h.Guard(c11h.Bound, func() {
 		for r := 0; r < rounds; r++ {
 			before := len(e.Anns())
